@@ -1369,3 +1369,244 @@ def check_c07(pid, replay=None):
 
 
 REGISTRY["C07"] = check_c07
+
+
+# ============================================================================================== C17 / C18 concurrency
+
+def conc_model(consts, invariants, name):
+    """TLC on UpfConc.tla for one scenario; returns (holds, distinct, generated)"""
+    d = vlib.stage_spec(["UpfConc.tla"], "conc-" + name)
+    cfg = "SPECIFICATION Spec\nCONSTANTS\n" + "".join(" %s = %s\n" % (k, v) for k, v in consts.items()) + \
+          "".join("INVARIANT %s\n" % i for i in invariants) + "CHECK_DEADLOCK FALSE\n"
+    with open(os.path.join(d, "MC.cfg"), "w") as fh:
+        fh.write(cfg)
+    p = subprocess.run(["tlc", "-workers", "2", "-metadir", os.path.join(d, "md"), "-config", "MC.cfg", "UpfConc.tla"], cwd=d, env=vlib._tlc_env(),
+                       stdout=subprocess.PIPE, stderr=subprocess.STDOUT, text=True, timeout=600)
+    out = p.stdout
+    m = re.search(r"(\d+) states generated, (\d+) distinct states found", out)
+    if not m or ("No error has been found" not in out and "is violated" not in out):
+        raise Infra("TLC failed on UpfConc (%s):\n%s" % (name, out[-2000:]))
+    viol = re.findall(r"Invariant (\w+) is violated", out)
+    return viol, int(m.group(2)), int(m.group(1))
+
+
+def ceil_div(a, b):
+    return -(-a // b)
+
+
+def scen_model(s):
+    """scale a real scenario to the model's units: evtCh 512 -> 2 (unit 256), srCh 128 -> 1 (unit 128)"""
+    c = {"EvtCap": 2, "SrCap": 1, "ToCap": 1, "Dels": 0, "Reports": 0, "Mcasts": 0, "NlCalls": 0, "Timers": 0, "WithStop": "FALSE", "DoneChan": "TRUE"}
+    if s["kind"] == "perio":
+        per_turn = s["n"] * s["u"] if s["bulk"] == "reassoc" else s["u"]
+        c["Dels"] = ceil_div(per_turn, 256)
+        c["Reports"] = ceil_div(s["n"], 128)
+    elif s["kind"] == "mcast":
+        c["Mcasts"] = ceil_div(s["burst"], 128)
+        c["NlCalls"] = 1 if s["latency"] >= 0 else 0
+    return c
+
+
+import queue as _queue
+
+
+def run_stress_pool(binary, scens, k0, nworkers):
+    """run scenarios in parallel, each worker owning one loopback network"""
+    ks = _queue.Queue()
+    for i in range(nworkers):
+        ks.put(k0 + i)
+
+    def one(s):
+        k = ks.get()
+        try:
+            return run_stress(binary, s, k)
+        finally:
+            ks.put(k)
+    with cf.ThreadPoolExecutor(nworkers) as ex:
+        return list(ex.map(one, scens))
+
+
+def run_stress(binary, scen, k, race=False, timeout=300):
+    d = vlib.sub("stress")
+    fin = os.path.join(d, scen["id"] + ".in")
+    fout = os.path.join(d, scen["id"] + ".out")
+    with open(fin, "w") as fh:
+        fh.write(json.dumps(scen) + "\n")
+    if os.path.exists(fout):
+        os.remove(fout)
+    env = dict(os.environ, VERIF_IN=fin, VERIF_OUT=fout, VERIF_K=str(k))
+    try:
+        p = subprocess.run([binary, "-test.run", "^TestVerifStress$", "-test.timeout", "%ds" % timeout], env=env, cwd=d,
+                           stdout=subprocess.PIPE, stderr=subprocess.STDOUT, text=True, timeout=timeout + 30)
+        rc, txt = p.returncode, p.stdout
+    except subprocess.TimeoutExpired as ex:
+        rc, txt = -9, str(ex.stdout or "")
+    outs = vlib.read_ndjson(fout)
+    return rc, txt, (outs[0] if outs else None)
+
+
+STRESS_BASE = {"kind": "perio", "n": 0, "u": 0, "bulk": "reassoc", "burst": 0, "latency": 0, "deadline": 10, "seed": 1, "smfs": 0, "prods": 0, "runms": 0, "stop": False}
+
+
+def c18_grid(thorough, rng):
+    S = lambda **kw: dict(STRESS_BASE, **kw)
+    g = [S(id="p-100x2", n=100, u=2), S(id="p-140x1", n=140, u=1), S(id="p-100x6", n=100, u=6), S(id="p-300x2", n=300, u=2),
+         S(id="p-300x2-del", n=300, u=2, bulk="delete"), S(id="p-60x4", n=60, u=4),
+         S(id="m-100", kind="mcast", burst=100, latency=250), S(id="m-200", kind="mcast", burst=200, latency=250),
+         S(id="m-300-alone", kind="mcast", burst=300, latency=-1)]
+    if thorough:
+        for n in (50, 120, 129, 200, 600):
+            for u in (1, 2, 5):
+                g.append(S(id="p-%dx%d" % (n, u), n=n, u=u))
+        for b in (64, 127, 129, 160, 400, 1000):
+            g.append(S(id="m-%d" % b, kind="mcast", burst=b, latency=rng.choice([100, 300, 600])))
+        g.append(S(id="p-200x3-del", n=200, u=3, bulk="delete"))
+    return g
+
+
+def check_c18(pid, replay=None):
+    import random
+    t0 = time.time()
+    thorough = vlib.tier() == "thorough"
+    rng = random.Random(vlib.seed())
+    binary = vlib.build_test_binary("internal/pfcp")
+    known = vlib.load_known()
+    if replay:
+        with open(replay) as fh:
+            doc = json.load(fh)
+        rc, txt, o = run_stress(binary, doc["scenario"], kbase(pid) + 9)
+        if o is None or not o["answered"] or not o["stopped"]:
+            print("VIOLATION property=%s replay=%s" % (pid, replay))
+            return 1
+        log("replay: the scenario made progress on the current tree")
+        return 0
+    grid = c18_grid(thorough, rng)
+    # what does the specification say about each scenario?
+    states = trans = 0
+    pred = {}
+    with cf.ThreadPoolExecutor(8) as ex:
+        for s, (viol, d, g) in zip(grid, ex.map(lambda s: conc_model(scen_model(s), ["NoWedge", "AllServed"], s["id"]), grid)):
+            pred[s["id"]] = "NoWedge" in viol
+            states += d
+            trans += g
+            if "AllServed" in viol:
+                raise Infra("UpfConc: a report is lost or duplicated in the model (%s)" % s["id"])
+    log("UpfConc: %d scenarios model-checked (%d states): a wedge is reachable in %s" % (len(grid), states, sorted(k for k, v in pred.items() if v)))
+    results = run_stress_pool(binary, grid, kbase(pid), 6)
+    nviol = 0
+    seen = set()
+    samples = []
+    for s, (rc, txt, o) in zip(grid, results):
+        if o is None:
+            raise Infra("stress scenario %s produced no result (rc=%d): %s" % (s["id"], rc, txt[-800:]))
+        wedged = not o["answered"]
+        samples.append({"scenario": {k: s[k] for k in ("id", "kind", "n", "u", "bulk", "burst", "latency")}, "model_says_wedge_reachable": pred[s["id"]],
+                        "answered": o["answered"], "signature": o["sig"], "wall_ms": o["wallms"]})
+        if o["fatal"] and o["answered"]:
+            log("  scenario %s: fatal: %s" % (s["id"], o["fatal"][:200]))
+        if not wedged and o["stopped"] and not o["fatal"]:
+            continue
+        v = {"tags": ["C18:the event loop made no progress: " + (o["sig"] or o["fatal"] or "not stopped")], "line": {"e": s}}
+        kf = match_known(known, pid, v) if pred[s["id"]] else None
+        if kf:
+            if kf["id"] not in seen:
+                seen.add(kf["id"])
+                print("KNOWN-FINDING: property=%s %s" % (pid, kf["what"]))
+            continue
+        nviol += 1
+        path = vlib.save_replay(pid, s["id"], {"property": pid, "kind": "stress", "scenario": s, "result": o, "model_says_wedge_reachable": pred[s["id"]]})
+        log("  rejected: scenario %s wedged (%s) although %s" % (s["id"], o["sig"], "the specification admits no wedge there" if not pred[s["id"]] else "its blocked cycle is not a listed finding"))
+        print("VIOLATION property=%s replay=%s" % (pid, path))
+    cov = {"states": states, "transitions": trans, "traces_validated_against_impl": len(grid), "samples": samples,
+           "scenarios": len(grid), "exhaustive": False,
+           "checker_cmd": "tlc UpfConc.tla (INVARIANT NoWedge, AllServed) per scaled scenario; TestVerifStress per scenario on the real stack"}
+    vlib.write_evidence(pid, "model_checking", cov, time.time() - t0, nviol, [
+        "UpfConc.tla models goroutines and bounded channels; capacities scaled 512 -> 2, 128 -> 1 (the cycles exist for every finite capacity)",
+        "progress oracle: a Heartbeat Request is answered within 10 s after the burst; on time-out the goroutine dump must show the blocked cycle",
+        "a wedge counts as the known finding only if the specification says a wedge is reachable in that scenario AND the dump shows the listed cycle"])
+    return 1 if nviol else 0
+
+
+def check_c17(pid, replay=None):
+    import random
+    t0 = time.time()
+    thorough = vlib.tier() == "thorough"
+    rng = random.Random(vlib.seed())
+    known = vlib.load_known()
+    if replay:
+        with open(replay) as fh:
+            doc = json.load(fh)
+        binary = vlib.build_test_binary("internal/pfcp", race=True)
+        rc, txt, o = run_stress(binary, doc["scenario"], kbase(pid) + 9)
+        bad = rc != 0 or o is None or not o["stopped"] or "DATA RACE" in txt or (doc["scenario"]["kind"] == "once" and o["emitted"] != o["delivered"])
+        if bad:
+            print("VIOLATION property=%s replay=%s" % (pid, replay))
+            return 1
+        log("replay: clean on the current tree")
+        return 0
+    # the specification: exactly-once delivery, no send on a closed channel, for small instances incl. Stop anywhere
+    states = trans = 0
+    models = [dict(scen_model(dict(STRESS_BASE, kind="none")), Dels=1, Reports=2, Mcasts=2, NlCalls=1, Timers=2, WithStop=w, SrCap=2) for w in ("TRUE", "FALSE")]
+    for i, c in enumerate(models):
+        viol, d, g = conc_model(c, ["NoSendOnClosed", "AllServed"], "c17-%d" % i)
+        states += d
+        trans += g
+        if viol:
+            raise Infra("UpfConc (repaired semantics) violates %s" % viol)
+    log("UpfConc: exactly-once and no-send-on-closed hold for every schedule of the bounded model incl. Stop anywhere (%d states)" % states)
+    binary = vlib.build_test_binary("internal/pfcp", race=True)
+    nseed = 60 if thorough else 10
+    scen = []
+    for i in range(nseed):
+        sd = vlib.seed() * 1000 + i
+        scen.append(dict(STRESS_BASE, id="once-%d" % sd, kind="once", smfs=rng.randint(2, 4), prods=rng.randint(2, 8), runms=300, seed=sd))
+        scen.append(dict(STRESS_BASE, id="stop-%d" % sd, kind="stop", smfs=rng.randint(2, 4), prods=rng.randint(2, 8), runms=rng.randint(5, 250), stop=True, seed=sd))
+    results = run_stress_pool(binary, scen, kbase(pid), 5)
+    nviol = 0
+    seen = set()
+    samples = []
+    for s, (rc, txt, o) in zip(scen, results):
+        why = None
+        if "DATA RACE" in txt:
+            why = "data race reported by the race detector: " + txt[txt.index("DATA RACE"):][:600].replace("\n", " | ")
+        elif rc != 0 and "INFRA:" in txt:
+            raise Infra("stress scenario %s: %s" % (s["id"], txt[-800:]))
+        elif rc != 0 or o is None:
+            why = "the process died: " + txt[-500:].replace("\n", " | ")
+        elif not o["answered"]:
+            why = "wedged: " + o["sig"]
+        elif not o["stopped"]:
+            why = "goroutines still running after Stop: " + (o["dump"][:300] or o["fatal"])
+        elif o["fatal"]:
+            why = "fault: " + o["fatal"][:300]
+        elif s["kind"] == "once" and o["emitted"] != o["delivered"]:
+            why = "%d notifications emitted, %d processed" % (o["emitted"], o["delivered"])
+        if o:
+            samples.append({"id": s["id"], "smfs": s["smfs"], "producers": s["prods"], "stop_after_ms": s["runms"] if s["stop"] else None,
+                            "emitted": o["emitted"], "delivered": o["delivered"], "stopped": o["stopped"]})
+        if why is None:
+            continue
+        v = {"tags": ["C17:" + why], "line": {"e": s}}
+        kf = match_known(known, pid, v)
+        if kf:
+            if kf["id"] not in seen:
+                seen.add(kf["id"])
+                print("KNOWN-FINDING: property=%s %s" % (pid, kf["what"]))
+            continue
+        nviol += 1
+        if nviol <= 5:
+            path = vlib.save_replay(pid, s["id"], {"property": pid, "kind": "stress", "scenario": s, "result": o, "why": why, "output": txt[-3000:]})
+            log("  rejected: %s: %s" % (s["id"], why[:300]))
+            print("VIOLATION property=%s replay=%s" % (pid, path))
+    cov = {"states": states, "transitions": trans, "traces_validated_against_impl": len(scen), "samples": samples[:6],
+           "scenarios": len(scen), "race_detector": True, "exhaustive": False,
+           "checker_cmd": "tlc UpfConc.tla (INVARIANT NoSendOnClosed, AllServed); TestVerifStress (built with -race) per scenario"}
+    vlib.write_evidence(pid, "model_checking", cov, time.time() - t0, nviol, [
+        "memory accesses are not modelled: freedom from data races is OBSERVED by running the conformance scenarios under the Go race detector",
+        "exactly-once is judged at the simulated SMF: every BUFFER notification for a buffering+notifying FAR must yield one downlink data report (distinct sequence numbers)",
+        "report producers are throttled below the report-queue size so that the known wedge of C18 does not mask this property"])
+    return 1 if nviol else 0
+
+
+REGISTRY["C17"] = check_c17
+REGISTRY["C18"] = check_c18
